@@ -1,6 +1,7 @@
 \* every RELA table of <= 3 entries x every REL table of <= 1 entry over 4 words, 4 dynamic-section layouts,
 \* 3 program-header lists, 3 start-up situations
 CONSTANTS
+  Variant = "coded"
   Rels <- Rel1
   Relas <- Rela3
   Words <- W
